@@ -37,7 +37,10 @@ pub fn gen_ops(r: &mut Rng, allow_zero_width: bool) -> String {
             6 | 7 => { let n = match r.below(4) { 0 => r.below(9), 1 => r.below(70), 2 => 60 + r.below(140), _ => r.below(300) };
                  write!(s, "Z:{} ", n).unwrap() }
             8 => s.push_str("A "),
-            _ => { let k = r.below(5); let mut h = String::new(); for _ in 0..k { write!(h, "{:02x}", r.below(256)).unwrap(); }
+            _ => { // byte runs: short ones, runs around one / two / four 64-bit words (a word sink may special-case
+                   // whole words), and arbitrary lengths
+                   let k = match r.below(4) { 0 => r.below(5), 1 => 7 + r.below(3), 2 => *r.pick(&[15u64, 16, 17, 23, 24, 25, 31, 32, 33]), _ => r.below(48) };
+                   let mut h = String::new(); for _ in 0..k { write!(h, "{:02x}", r.below(256)).unwrap(); }
                    write!(s, "B:{} ", h).unwrap() }
         }
     }
